@@ -31,7 +31,7 @@ PROFILE = dict(
     max_ops=8, minmax=True, alias_arrays=False, whole_array_ops=True, matmul_only=True,
     builtin_set=["<builtin>len", "<builtin>elementwise_abs"], yield_uvec_only=True,
     assign_all_state=True, dead_code=False, yield_call_free=True,
-    extra_kinds=("arrwhole", "arrwhole", "newarr", "arrwrite"),
+    extra_kinds=("arrwhole", "transpose", "matmul", "newarr", "arrwrite"),
 )
 # features switched off by known findings
 FEATURE_PROFILE = {
